@@ -609,6 +609,27 @@ func (f *codecFam) generate(rng *rand.Rand, n int, out *emitter) {
 			l := ct.size*(5+rng.Intn(20)) + pick(rng, 0, 0, 0, 1, -1, ct.size/2)
 			out.call(M{"e": "Compact", "ty": ct.ty, "via": pick(rng, "bin", "benc"), "in": ints(rbytes(rng, l))})
 		}
+		// entries with remarkable addresses (IPv4-mapped, unspecified, all ones, loopback-like) and ports 0 / 65535
+		if ct.ty != "hashes" {
+			pool := ip4s
+			if ct.size == 18 || ct.size == 38 {
+				pool = append(append([][]byte{}, ip6s...), ip4m...)
+			}
+			for i := 0; i < 12+n/200; i++ {
+				var pl []byte
+				for k := 1 + rng.Intn(4); k > 0; k-- {
+					if ct.size == 26 || ct.size == 38 {
+						pl = append(pl, rbytes(rng, 20)...)
+					}
+					pl = append(pl, pool[rng.Intn(len(pool))]...)
+					port := genPort(rng)
+					pl = append(pl, byte(port>>8), byte(port))
+				}
+				for _, via := range []string{"bin", "benc"} {
+					out.call(M{"e": "Compact", "ty": ct.ty, "via": via, "in": ints(pl)})
+				}
+			}
+		}
 	}
 	// (7) every exported decoder called directly: all short lengths, bencode strings of all short
 	// lengths, other bencode values, damaged bencode
@@ -646,6 +667,9 @@ func (f *codecFam) generate(rng *rand.Rand, n int, out *emitter) {
 			ns[j] = genNode(rng, pick(rng, 4, 6))
 		}
 		out.call(M{"e": "NodesFile", "in": ns})
+		if rng.Intn(2) == 0 {
+			out.call(M{"e": "NodesFile", "in": ns, "pre": fmt.Sprint(26*(len(ns)+1+rng.Intn(4)) + pick(rng, 0, 0, 7))})
+		}
 	}
 	for l := 0; l <= 4*38+1; l++ {
 		out.call(M{"e": "NodesFileRaw", "hex": hx(rbytes(rng, l))})
